@@ -3449,6 +3449,39 @@ func globKeepsOtherMatches(c *Check, a *Anchors) {
 			})
 			c.Decide(skips, "glob-keeps-other-matches", fmt.Sprintf("stat-error#%d@%s", n, fnDisplay(fb)), ifs.Pos(), "an unreadable match can be skipped",
 				"every failure to stat one expanded name makes glob return an error, and Globs then drops the whole pattern: one dangling symlink removes all files of the pattern from the fingerprint")
+			// ... but only a name whose directory entry exists (a dangling link): the skip lies under the nil edge of an
+			// os.Lstat of the name. A name that does not exist at all — an alternative of a brace expression in `generates` —
+			// must stay an error, or a generates entry is satisfied by one of the files it names
+			if skips {
+				pmI := parentMap(ifs.Body)
+				confined := true
+				ast.Inspect(ifs.Body, func(k ast.Node) bool {
+					br, ok := k.(*ast.BranchStmt)
+					if !ok || br.Tok != token.CONTINUE {
+						return true
+					}
+					underLstat := false
+					for p := pmI[br]; p != nil; p = pmI[p] {
+						inner, ok := p.(*ast.IfStmt)
+						if !ok || !within(br, inner.Body) {
+							continue
+						}
+						if as, ok := inner.Init.(*ast.AssignStmt); ok && len(as.Rhs) == 1 {
+							if lc, ok := ast.Unparen(as.Rhs[0]).(*ast.CallExpr); ok && isFunc(callee(info, lc), "os", "", "Lstat") {
+								if be2, ok := ast.Unparen(inner.Cond).(*ast.BinaryExpr); ok && be2.Op == token.EQL && isNilLit(info, be2.Y) && varOf(info, be2.X) == varOf(info, as.Lhs[len(as.Lhs)-1]) {
+									underLstat = true
+								}
+							}
+						}
+					}
+					if !underLstat {
+						confined = false
+					}
+					return true
+				})
+				c.Decide(confined, "glob-keeps-other-matches", fmt.Sprintf("skip-only-dangling#%d@%s", n, fnDisplay(fb)), ifs.Pos(), "only a name whose entry exists (os.Lstat succeeds) is skipped",
+					"glob skips every expanded name that cannot be stat'ed, including names that do not exist at all: `generates: ['out/{a,b}.txt']` is then satisfied as long as ONE of the two files exists, so a removed generated file does not make the task run again")
+			}
 			return true
 		})
 		return true
@@ -4273,4 +4306,76 @@ func reflectIsNilGuarded(c *Check, a *Anchors, rule string) {
 		})
 	}
 	c.Floor(rule, n, 1)
+}
+
+// discardedErrorValueUsed (C16 / C14): "cannot fail" stated by discarding the error, then the value is used.
+func discardedErrorValueUsed(c *Check, a *Anchors, rule string) {
+	c.Rule(rule, "in packages task, taskfile and taskfile/ast no call of a module function that returns (value, error) has its error discarded with `_` while the value — a pointer, map, slice or interface — is used afterwards without a nil test: when the call does fail the value is nil and its first use panics (in a Go defer, as in the deferred-command runner, that takes the whole process down instead of ending with a diagnosed error)")
+	n := 0
+	ord := map[string]int{}
+	for _, fb := range c.P.Bodies() {
+		if fb.Pkg.PkgPath != PkgTask && fb.Pkg.PkgPath != PkgTaskfile && fb.Pkg.PkgPath != PkgAst {
+			continue
+		}
+		info := fb.Info()
+		inspectBody(fb.Body, func(nd ast.Node) bool {
+			as, ok := nd.(*ast.AssignStmt)
+			if !ok || len(as.Lhs) != 2 || len(as.Rhs) != 1 {
+				return true
+			}
+			errID, ok := as.Lhs[1].(*ast.Ident)
+			if !ok || errID.Name != "_" {
+				return true
+			}
+			call, ok := ast.Unparen(as.Rhs[0]).(*ast.CallExpr)
+			if !ok {
+				return true
+			}
+			fn, ok := callee(info, call).(*types.Func)
+			if !ok || fn.Pkg() == nil || !strings.HasPrefix(fn.Pkg().Path(), Mod) {
+				return true
+			}
+			sig := fn.Type().(*types.Signature)
+			if sig.Results().Len() != 2 || !isErrorType(sig.Results().At(1).Type()) {
+				return true
+			}
+			v := varOf(info, as.Lhs[0])
+			if v == nil {
+				return true
+			}
+			switch v.Type().Underlying().(type) {
+			case *types.Pointer, *types.Map, *types.Slice, *types.Interface:
+			default:
+				return true
+			}
+			n++
+			c.Fn(fb.Root())
+			// used after the assignment without a nil test in between
+			var use ast.Node
+			tested := false
+			inspectDeep(fb.Root().Body, func(m ast.Node) bool {
+				if m.Pos() <= as.End() || use != nil {
+					return true
+				}
+				switch x := m.(type) {
+				case *ast.BinaryExpr:
+					if (x.Op == token.EQL || x.Op == token.NEQ) && varOf(info, x.X) == v && isNilLit(info, x.Y) {
+						tested = true
+					}
+				case *ast.Ident:
+					if info.Uses[x] == v && !tested {
+						use = x
+					}
+				}
+				return true
+			})
+			c.Decide(use == nil, rule, ordinal(ord, calleeName(fn)+"@"+fnDisplay(fb.Root())), as.Pos(), "the value is not used (or nil-tested first)",
+				"the error of "+calleeName(fn)+" is discarded in "+fnDisplay(fb.Root())+" and `"+v.Name()+"` is used afterwards without a nil test: when the call fails the value is nil and the use panics instead of the failure being reported")
+			return true
+		})
+	}
+	c.Extra["discarded_error_sites"] = n
+	if n == 0 {
+		c.OK(rule, "no-discarded-error", 0, "no (value, error) call of a module function discards its error in the inspected packages")
+	}
 }
